@@ -115,7 +115,8 @@ def run(tier):
         for name, text in nesting(d):
             inputs.append(("nest-%s-%d" % (name, d), text))
     inputs += soups(rnd, 1500 if tier == "quick" else 40000)
-    inputs += [("special", "'€'"), ("special", "\"\\q\""), ("special", "(\\v1 -> [(v1).x, v1])"), ("special", ""), ("special", "\n\n"), ("special", "let")]
+    inputs += [("special", "'€'"), ("special", "\"\\q\""), ("special", "(\\v1 -> [(v1).x, v1])"), ("special", ""), ("special", "\n\n"), ("special", "let"), ("special", "6d"), ("special", "1e"), ("special", "0x"), ("special", "1.5q"),
+               ("special", "type T a = | Leaf | Node (T a)  T a)\nrec let depth t =\n    match t with\n    | Leaf -> 0\n    | Node l _ r -> 1 + depth l\ndepth (Node Leaf 1 Leaf)\n")]
     seen, jobs = set(), []
     for kind, text in inputs:
         text = text[:4096]
